@@ -49,3 +49,20 @@ PROPS["C06"] = dict(
     jobs=lambda tier: [per_format("packetizer", "^TestC06$", 2000 if tier == "quick" else 60000,
                                   timeout=600 if tier == "quick" else 3000)],
 )
+
+PROPS["C07"] = dict(
+    title="Depacketizers resynchronise after loss, duplication and reordering",
+    pkg="codec",
+    rule=("rapid-generated streams of 4..12 (thorough: 4..40) valid frames with pairwise distinct units, encoded at a drawn limit, then 1..n "
+          "faults (drop / duplicate / swap-adjacent / move / drop-whole-frame on first, middle, last packets) applied to the packet order; the "
+          "12 stateful decoders. A frame is clean when each of its packets arrives once, contiguously, in order, with only earlier packets before "
+          "and later packets after; frame i is protected when frames i-1 and i are clean. Oracle per protected frame: its reference output (from a "
+          "clean decode) occurs exactly once in the whole output history, not before its last packet and not after the first arriving packet that "
+          "starts a later frame; no panic. Non-trivial: >=1 unclean frame followed later by >=1 protected frame. Distinct by case hash."),
+    assumptions=[
+        "a frame with no later frame start after it carries no delivery deadline (a decoder that delimits by the next frame may still hold it)",
+        "packets handed to the decoder have private payload buffers, as the library's own receive paths provide",
+    ],
+    jobs=lambda tier: [per_format("faults", "^TestC07$", 1500 if tier == "quick" else 30000, formats=STATEFUL,
+                                  timeout=900 if tier == "quick" else 3400)],
+)
